@@ -101,6 +101,7 @@ static int param_role (const ProgSpec *ps, int var, int *width)
 }
 
 static int finite_only;
+static int ref_emu_flag = -1;    /* which monitor a reference-vs-emulation difference is reported under (default: by mode) */
 
 static void choose_params (const ProgSpec *ps, VhRng *r, int n)
 {
@@ -306,6 +307,16 @@ static int float_equiv (uint64_t a, uint64_t b, int fsize)
 /* per-element taint for float programs: min/max of numerically equal operands, NaN anywhere */
 static uint8_t *taint_buf;
 static size_t taint_cap;
+/* single-instruction arithmetic programs: per element, bit l set = lane l of the instruction had a NaN input ("a NaN input never
+ * yields a non-NaN arithmetic result" is then checked on the native and on the emulated destination) */
+static uint8_t *nanin_buf;
+static int nanin_valid;
+static int is_float_arith (const RefOp *op)
+{
+  static const char *names[] = { "addf", "subf", "mulf", "divf", "sqrtf", "maxf", "minf", "addd", "subd", "muld", "divd", "sqrtd", "maxd", "mind" };
+  unsigned i; for (i = 0; i < sizeof names / sizeof names[0]; i++) if (!strcmp (op->name, names[i])) return 1;
+  return 0;
+}
 
 static void compute_taint (const ProgSpec *ps, const RunIO *io)
 {
@@ -314,8 +325,9 @@ static void compute_taint (const ProgSpec *ps, const RunIO *io)
   uint64_t val[GEN_MAX_VARS];
   int has[GEN_MAX_VARS];
   size_t need = (size_t) io->n * io->m + 1;
-  if (need > taint_cap) { taint_cap = need * 2; taint_buf = realloc (taint_buf, taint_cap); }
-  memset (taint_buf, 0, need);
+  if (need > taint_cap) { taint_cap = need * 2; taint_buf = realloc (taint_buf, taint_cap); nanin_buf = realloc (nanin_buf, taint_cap); }
+  memset (taint_buf, 0, need); memset (nanin_buf, 0, need);
+  nanin_valid = ps->ninsns == 1 && is_float_arith (gen_op (&ps->insns[0]));
   for (j = 0; j < io->m; j++) for (i = 0; i < io->n; i++) {
     int t = 0;
     memset (has, 0, sizeof has);
@@ -341,7 +353,7 @@ static void compute_taint (const ProgSpec *ps, const RunIO *io)
         for (l = 0; l < in->mult; l++) {
           for (k = 0; k < 4; k++) if (op->ssz[k] && (op->flags & RF_FLOAT_S)) {
             uint64_t x = (s[k] >> (8 * op->ssz[k] * l)) & ref_mask (op->ssz[k]);
-            if (op->ssz[k] == 4 ? ref_isnan32 ((uint32_t) x) : ref_isnan64 (x)) t = 1;
+            if (op->ssz[k] == 4 ? ref_isnan32 ((uint32_t) x) : ref_isnan64 (x)) { t = 1; if (nanin_valid && l < 8) nanin_buf[(size_t) j * io->n + i] |= (uint8_t) (1u << l); }
           }
           if (op->flags & RF_FLOAT_D) {
             uint64_t x = (d[0] >> (8 * op->dsz[0] * l)) & ref_mask (op->dsz[0]);
@@ -365,6 +377,34 @@ static void compute_taint (const ProgSpec *ps, const RunIO *io)
     }
     taint_buf[(size_t) j * io->n + i] = (uint8_t) t;
   }
+}
+
+/* NaN propagation of single-instruction arithmetic programs on copy X (0 native, 1 emulated); returns 1 and fills f on a violation */
+static int check_nan_propagation (const ProgSpec *ps, const RunCfg *cfg, const RunSetup *rs, int X, Failure *f)
+{
+  int k, dv, fs; long row, el;
+  if (!nanin_valid || !nanin_buf) return 0;
+  dv = ps->insns[0].dest[0]; fs = gen_op (&ps->insns[0])->dsz[0];
+  for (k = 0; k < rs->nap; k++) {
+    const ArrPlace *a = &rs->ap[k]; ArenaSlot *sx;
+    if (!a->is_dest || a->var != dv) continue;
+    sx = slot_for (a, X, cfg->striped);
+    for (row = 0; row < cfg->m; row++) for (el = 0; el < cfg->n; el++) {
+      uint8_t lanes = nanin_buf[(size_t) row * cfg->n + el]; const uint8_t *px; uint64_t v; int l;
+      if (!lanes) continue;
+      px = cfg->striped ? arena_data_rw (sx, (int) row) + a->off0 + el * a->esz : arena_data_rw (sx, 0) + a->off0 + row * a->stride + el * a->esz;
+      v = gen_rd (px, a->esz);
+      for (l = 0; l < a->esz / fs; l++) if (lanes & (1u << l)) {
+        uint64_t x = (v >> (8 * fs * l)) & ref_mask (fs);
+        if (!(fs == 4 ? ref_isnan32 ((uint32_t) x) : ref_isnan64 (x))) {
+          f->var = a->var; f->row = (int) row; f->elem = el; snprintf (f->sub, sizeof f->sub, "nan-lost");
+          snprintf (f->what, sizeof f->what, "%s[row %ld][%ld] lane %d: a NaN input gave the non-NaN %s result %#llx", ps->vars[a->var].name, row, el, l, X == 0 ? "native" : "emulated", (unsigned long long) x);
+          return 1;
+        }
+      }
+    }
+  }
+  return 0;
 }
 
 /* compare destination copies X and Y (0=A native, 1=B emu, 2=C ref); returns 1 and fills f on difference */
@@ -572,6 +612,10 @@ static int run_one (OrcProgram *p, ProgSpec *ps, const Tgt *tg, const RunCfg *cf
       else if (check_canaries (ps, cfg, &rs, 1, 1, &g)) { g.c1 = f.c1; g.c2 = f.c2; g.c3 = f.c3; f = g; PUSH (F_CANARY_EMU); }
     }
   }
+  if (float_mode && want_ref) {
+    if (check_nan_propagation (ps, cfg, &rs, 0, &f)) PUSH (F_NAN);
+    else if (check_nan_propagation (ps, cfg, &rs, 1, &f)) PUSH (F_NAN);
+  }
   accn = 0;
   for (i = 0; i < ps->nvars; i++) if (ps->vars[i].kind == VK_ACC) {
     if ((uint32_t) exA->accumulators[accn] != (uint32_t) exB.accumulators[accn]) {
@@ -587,7 +631,7 @@ static int run_one (OrcProgram *p, ProgSpec *ps, const Tgt *tg, const RunCfg *cf
   /* the reference computes in round-to-nearest: only comparable when the caller's rounding mode is RN */
   if (want_ref && (!float_mode || (cfg->mxcsr & 0x6000) == 0)) {
     int r = compare_dests (ps, cfg, &rs, 1, 2, &f, float_mode);
-    if (r == 1) PUSH (float_mode ? F_FLOAT : F_REF_EMU);
+    if (r == 1) PUSH (ref_emu_flag >= 0 ? ref_emu_flag : float_mode ? F_FLOAT : F_REF_EMU);
   }
   /* canaries */
   if (nf == 0 || full_canary) {
@@ -829,6 +873,8 @@ static void run_program (ProgSpec *ps, long caseidx, VhRng *r, int is_single)
           cfg.m = ps->is2d ? (ps->const_m ? ps->const_m : 1 + (int) vh_randn (r, 4)) : 1;
           cfg.striped = (ps->is2d && pl != PL_MID && mode_striped && n * 8 <= ARENA_PAGE) ? (int) vh_randn (r, 2) : 0;
           cfg.mxcsr = (mode_profile & GP_FLOAT) || !strcmp (vh_args.mode, "c10") ? mxcsr_set[vh_randn (r, 6)] : 0x1f80;
+          /* the emulator's meaning is judged in the default floating-point environment (what a caller's FTZ/DAZ/rounding bits do to it is C18's question) */
+          if (!strcmp (vh_args.mode, "c02f")) cfg.mxcsr = 0x1f80;
           cfg.cseed = vh_rand (r);
           for (v = 0; v < ps->nvars; v++) {
             int al = ps->vars[v].align > ps->vars[v].size ? ps->vars[v].align : ps->vars[v].size;
@@ -896,11 +942,11 @@ int main (int argc, char **argv)
   if (!strcmp (mode, "c01")) {
     report_mask = (1u << F_MISMATCH) | (1u << F_ACC) | (1u << F_FAULT_NATIVE) | (1u << F_FAULT_EMU) | (1u << F_CANARY_NATIVE) | (1u << F_CANARY_EMU) | (1u << F_ABI);
     mode_prop = "C01"; mode_profile = GP_INT | GP_ACC | GP_2D | GP_HINTS | GP_EXPLICIT_LS; mode_placements = 1 << PL_MID; want_ref = 0;
-    N_single = -1; N_pairs = -1; N_random = vh_args.thorough ? 400000 : 40000; N_special = vh_args.thorough ? 40000 : 4000;
+    N_single = -1; N_pairs = -1; N_random = vh_args.thorough ? 400000 : 40000; N_special = vh_args.thorough ? 40000 : 4000; N_regs = vh_args.thorough ? 60000 : 6000;
   } else if (!strcmp (mode, "c03")) {
     report_mask = (1u << F_FAULT_NATIVE) | (1u << F_FAULT_EMU) | (1u << F_CANARY_NATIVE) | (1u << F_CANARY_EMU) | (1u << F_SRC_CHANGED) | (1u << F_ABI);
     mode_prop = "C03"; mode_profile = GP_INT | GP_FLOAT | GP_ACC | GP_2D | GP_HINTS | GP_EXPLICIT_LS | GP_SPECIAL; mode_placements = (1 << PL_TRAIL) | (1 << PL_LEAD); mode_striped = 1; want_ref = 0;
-    N_single = -1; N_pairs = vh_args.thorough ? -1 : 4000; N_random = vh_args.thorough ? 200000 : 20000; N_special = vh_args.thorough ? 60000 : 6000;
+    N_single = -1; N_pairs = vh_args.thorough ? -1 : 4000; N_random = vh_args.thorough ? 200000 : 20000; N_special = vh_args.thorough ? 60000 : 6000; N_regs = vh_args.thorough ? 40000 : 4000;
   } else if (!strcmp (mode, "c10")) {
     report_mask = (1u << F_FAULT_NATIVE) | (1u << F_CANARY_NATIVE) | (1u << F_ABI);
     mode_prop = "C10"; mode_profile = GP_INT | GP_FLOAT | GP_ACC | GP_2D | GP_HINTS | GP_EXPLICIT_LS | GP_SPECIAL; mode_placements = (1 << PL_MID) | (1 << PL_TRAIL); want_ref = 0;
@@ -909,6 +955,11 @@ int main (int argc, char **argv)
     report_mask = (1u << F_FLOAT) | (1u << F_NAN) | (1u << F_MASK) | (1u << F_DENORMAL) | (1u << F_FAULT_NATIVE) | (1u << F_ABI);
     mode_prop = "C18"; mode_profile = GP_FLOAT | GP_HINTS | GP_2D; mode_placements = (1 << PL_MID) | (1 << PL_TRAIL); want_ref = 1; float_mode = 1; finite_only = 0;
     N_single = -1; N_pairs = -1; N_random = vh_args.thorough ? 250000 : 25000; N_special = 0;
+  } else if (!strcmp (mode, "c02f")) {
+    /* float/double opcodes: emulation vs the reference (the native comparison of the same runs is C18's and is not reported here) */
+    report_mask = (1u << F_REF_EMU) | (1u << F_FAULT_EMU) | (1u << F_CANARY_EMU);
+    mode_prop = "C02"; mode_profile = GP_FLOAT | GP_HINTS | GP_2D; mode_placements = 1 << PL_MID; want_ref = 1; float_mode = 1; finite_only = 0; ref_emu_flag = F_REF_EMU;
+    N_single = -1; N_pairs = vh_args.thorough ? -1 : 3000; N_random = vh_args.thorough ? 80000 : 8000; N_special = 0;
   } else if (!strcmp (mode, "c02x")) {
     /* multi-instruction programs: emulation vs reference interpreter */
     report_mask = (1u << F_REF_EMU) | (1u << F_FAULT_EMU) | (1u << F_CANARY_EMU);
@@ -975,7 +1026,7 @@ int main (int argc, char **argv)
       /* regs: many arrays and temps to force callee-saved registers */
       char nm[32]; snprintf (nm, sizeof nm, "regs_%ld", c);
       gen_init (&ps, nm);
-      ok = gen_random (&ps, &r, (mode_profile & ~(GP_SPECIAL | GP_FLOAT)) | GP_2D, 10 + (int) vh_randn (&r, 14));
+      ok = gen_random (&ps, &r, ((mode_profile & ~(GP_SPECIAL | GP_FLOAT)) | GP_2D) | ((c % 3) == 0 ? GP_SPECIAL : 0), 10 + (int) vh_randn (&r, 14));
       snprintf (desc, sizeof desc, "regs %s", nm);
     }
     vh_progress (c, desc);
